@@ -103,6 +103,7 @@ class Ctx:
         for f in files:
             txt = open(os.path.join(COQ, f)).read()
             txt_nc = re.sub(r"\(\*.*?\*\)", "", txt, flags=re.S)
+            txt_nc = re.sub(r'"[^"]*"', '""', txt_nc)   # string literals are data (a tagger is called "Parameters")
             for m in FORBIDDEN.finditer(txt_nc):
                 # Section variables/hypotheses are allowed only inside a Section
                 word = m.group(0)
